@@ -22,6 +22,7 @@ import sys
 VERIF = os.path.dirname(os.path.dirname(os.path.abspath(__file__)))
 REPO = "/repo"
 ROOT = "/tmp/seedeval"
+AFFECTED_ONLY = False
 TOOLCHAIN = "/root/go/pkg/mod/golang.org/toolchain@v0.0.1-go1.25.6.linux-amd64/bin"
 
 
@@ -114,7 +115,65 @@ def confirm(name, suite):
         res["demo_patched_fails"] = fails > 0
         res["demo_patched_tail"] = out[-1200:]
         os.remove(os.path.join(wt, path))
-        if suite:
+        if suite and AFFECTED_ONLY:
+            # Only packages whose test binaries contain the changed package can behave differently: run those
+            # (transitive importers of the changed directories, test imports included) and compare with the
+            # stable-pass list restricted to them.
+            changed = set()
+            for line in open(os.path.join(sdir, "patch.diff")):
+                m = re.match(r"\+\+\+ b/(.*)/[^/]+$", line)
+                if m:
+                    changed.add("github.com/bufbuild/protocompile/" + m.group(1))
+                elif re.match(r"\+\+\+ b/[^/]+$", line):
+                    changed.add("github.com/bufbuild/protocompile")
+            rc, out = sh(["go", "list", "-f", '{{.ImportPath}}|{{join .Imports ","}}|{{join .TestImports ","}}|{{join .XTestImports ","}}', "./..."], wt)
+            imps, timps = {}, {}
+            for line in out.splitlines():
+                parts = line.split("|")
+                if len(parts) != 4:
+                    continue
+                imps[parts[0]] = set(x for x in parts[1].split(",") if x)
+                timps[parts[0]] = set(x for x in (parts[2] + "," + parts[3]).split(",") if x)
+            reach = set(changed)
+            grew = True
+            while grew:
+                grew = False
+                for pk, im in imps.items():
+                    if pk not in reach and im & reach:
+                        reach.add(pk)
+                        grew = True
+            affected = sorted(pk for pk in imps if pk in reach or (timps[pk] & reach))
+            js = os.path.join(base, "suite.json")
+            sh(["bash", "-c", "go test -json -vet=off -count=1 -timeout 8m %s > %s 2>&1" % (" ".join(affected), js)], wt)
+            stable = set(json.load(open("/root/.vp/BASELINE.json"))["stable_pass"])
+            want = set(t for t in stable if t.split("::")[0] in affected)
+            got = {}
+            for line in open(js, errors="replace"):
+                try:
+                    e = json.loads(line)
+                except Exception:
+                    continue
+                if e.get("Action") in ("pass", "fail", "skip") and e.get("Test"):
+                    got["%s::%s" % (e["Package"], e["Test"])] = e["Action"]
+            miss = sorted(t for t in want if got.get(t) != "pass")
+            flaky = ("/parser", "/internal/intern", "/internal/ext/syncx")
+            if miss and all(t.split("::")[0].endswith(flaky) for t in miss):
+                for _ in range(3):
+                    sh(["bash", "-c", "go test -json -vet=off -count=1 %s >> %s 2>&1" % (" ".join(sorted(set(t.split("::")[0] for t in miss))), js)], wt)
+                    for line in open(js, errors="replace"):
+                        try:
+                            e = json.loads(line)
+                        except Exception:
+                            continue
+                        if e.get("Action") == "pass" and e.get("Test"):
+                            got["%s::%s" % (e["Package"], e["Test"])] = "pass"
+                    miss = sorted(t for t in want if got.get(t) != "pass")
+                    if not miss:
+                        break
+            res["suite_ok"] = not miss
+            res["suite_scope"] = "%d of %d packages: the transitive importers (test imports included) of %s; test binaries of the other packages do not contain the change" % (len(affected), len(imps), ", ".join(sorted(changed)))
+            res["suite_summary"] = "stable-pass tests in scope=%d passing_now=%d not_passing=%d %s" % (len(want), len(want) - len(miss), len(miss), " ".join(miss[:10]))
+        elif suite:
             js = os.path.join(base, "suite.json")
             sh(["bash", "-c", "go test -json -vet=off -count=1 -timeout 8m ./... > %s 2>&1" % js], wt)
             rc, out = sh(["python3", os.path.join(VERIF, "lib", "baseline_cmp.py"), js], wt)
@@ -154,7 +213,10 @@ def main():
     ap.add_argument("names", nargs="+")
     ap.add_argument("--jobs", type=int, default=1)
     ap.add_argument("--no-suite", action="store_true")
+    ap.add_argument("--affected-only", action="store_true", help="run the suite only for packages whose test binaries contain the changed package")
     a = ap.parse_args()
+    global AFFECTED_ONLY
+    AFFECTED_ONLY = a.affected_only
     os.makedirs(ROOT, exist_ok=True)
     guard_disk()
     with concurrent.futures.ThreadPoolExecutor(a.jobs) as ex:
